@@ -19,6 +19,9 @@ from bitarray import bitarray
 PROPERTY = 'C08'
 
 OPTS = [dict(has_idx=i, hash_crc32=c, has_cache_bits=cb) for i in (False, True) for c in (False, True) for cb in (False, True)]
+import inspect
+if 'flags' in inspect.signature(Cell.to_boc).parameters:        # every parameter the serialiser has is an option of the call
+    OPTS += [dict(flags=1), dict(flags=2), dict(flags=3, hash_crc32=True), dict(flags=2, has_idx=True)]
 
 
 def _crc_stub(ctx):
@@ -160,6 +163,9 @@ def op_boc_opts(P):
     c.to_boc()
     c.to_boc(has_idx=True, hash_crc32=True)
     c.to_boc(has_idx=True, has_cache_bits=True)
+    if len(OPTS) > 8:
+        c.to_boc(flags=2)
+        c.to_boc()
 
 
 def op_boc_other_first(P):
@@ -267,7 +273,7 @@ BOUNDS = {
     'routes': ', '.join(ROUTES) + ' (13 data bits / 5, 8 and 0 bits for plain bit arrays, 2 references with a grandchild), contents symbolic',
     'operations': ', '.join(OPS),
     'sequences': 'length 0 and 1: all; length 2: 14 seeded pairs per route (quick) / all 225 (thorough); length 3: 60 seeded per route (thorough)',
-    'observed': 'bits, length, reference hashes, children bits, hash, depth, to_boc under all 8 option sets - against a twin cell that is only observed',
+    'observed': 'bits, length, reference hashes, children bits, hash, depth, to_boc under all 8 option sets and 4 values of its flags parameter - against a twin cell that is only observed',
 }
 OUTSIDE = ['operation sequences longer than 3', 'multi-threaded use']
 STUBS = ['crc32c inside the BoC code: memoised uninterpreted function', 'hashlib.sha256: injective uninterpreted function']
